@@ -116,6 +116,91 @@ CHECKS["C05"] = dict(
     note="The marshaller that builds the pre-pass tree is C01's model; tokenisation/escaping is C04's.",
 )
 
+CHECKS["C18"] = dict(
+    text=("Machine-checked theorems (Coq) over a heap model of MultiRef.process/build_catalog/update/"
+          "replace_references (referenced children appended as the SAME nodes), RPC.replycontent, Binding.get_reply "
+          "and the Encoded/Typed unmarshaller (setaty/applyaty/promote/postprocess, start, append_*): for bodies of "
+          "ANY size, sharing, nesting and placement, processing terminates and every root unfolds to the in-lined "
+          "tree (process_realises_inline), the client returns the decoding of the in-line reply for every out-lined "
+          "form (multiref_equiv, outline_invariant), dangling hrefs stay local, empty arrays decode to [], items are "
+          "typed from arrayType; the one departure of the unchanged code (unmarked multiRef before the response) is "
+          "refuted with a witness and listed as a known finding. ~730 (reply value, out-lined form) cases per quick "
+          "run (all 2^6 subsets of a shared-array value, 40 generated interfaces x 4 values x 4 forms; 17.8k thorough) "
+          "are injected into real clients in-line and out-lined and compared with each other and with the model "
+          "inside Coq."),
+    design="DESIGN.md §5 C18",
+    technique="Coq proof (induction on reference depth over a heap model) + in-Coq differential correspondence",
+    note="heap_ok of the processed heap is a boolean hypothesis of multiref_equiv (evaluated on every generated case, "
+         "not derived from an input-side condition); prefix handling (promotePrefixes, prefixes resolved through the "
+         "referrer) is covered by correspondence only; builtin translation is C06's.",
+)
+
+CHECKS["C20"] = dict(
+    text=("Machine-checked theorems (Coq) over a model of the XML reader protocol suds relies on (DTD state with "
+          "internal/external general and parameter entities, external subset, ATTLIST defaults, nested entities; the "
+          "single external-reference gate of expatreader; suds' Handler) with the outside world as a logging ORACLE: "
+          "with external general entities off the oracle is never called and the tree does not depend on it, for ALL "
+          "documents, nesting depths and system identifiers (no_external_io, oracle_independent, no_external_content, "
+          "marker_never_in_tree); every suds parse entry point obtains its parser from Parser.saxparser with the "
+          "feature off (entry_points_flags_off, suds_no_external_io); a witness shows the gate is what protects. "
+          "~3.6k documents per quick run (20 constructs x 13 system identifiers x 8 entry points, random ASTs, SOAP "
+          "replies, client loads with imported/included documents) are parsed under sys.addaudithook with planted "
+          "marker files and a loopback listener; flags are read back from the live parser. PARTIAL: pyexpat is C code; "
+          "the theorem is about the modelled callback protocol, the audit run ties it to the real parser."),
+    design="DESIGN.md §5 C20",
+    technique="Coq proof of oracle non-interference over a reader model + audited differential correspondence",
+    note="Trusted additionally: CPython audit events as the complete record of file/network access; the allowed set "
+         "(import-system reads, the caller-named cache file). Character references, CDATA, comments, PIs and "
+         "non-UTF-8 encodings are outside the document language of the model. 'Only named documents are fetched' is "
+         "a Python-side check (the loader model is C12's).",
+)
+
+CHECKS["C07"] = dict(
+    text=("Machine-checked theorems (Coq): (1) suds.xsd.depsort modelled statement by statement — for ALL graphs "
+          "(any size, cycles, dangling edges) |g|+1 fuel suffices, the output is a permutation of the items, "
+          "dependencies come first (topological, also transitively, on acyclic graphs); the docstring's stronger "
+          "claim for cyclic graphs is refuted with a witness; (2) qualify/splitPrefix/resolvePrefix/"
+          "SchemaObject.qualify equal the Namespaces-in-XML expansion and are invariant under every injective prefix "
+          "renaming and under default-namespace vs prefix spelling; (3) a concrete-schema model (blocks, collate, "
+          "element form rule, group / attributeGroup / element-ref / extension merges) whose flattened view is "
+          "invariant under permutation of declarations and under group factoring, ref-vs-inline, attributeGroup "
+          "factoring, with the two block-splitting departures of the code refuted and guarded. Per quick run: all "
+          "digraphs <= 3 keys + 1000 random to 40 keys against dependency_sort, 1500 qualify cases, and 36 generated "
+          "interfaces x 5 concrete renderings (prefixes, default namespace, order, named/anonymous, groups, refs, "
+          "1-3 blocks, WSDL order) whose clients must agree pairwise and with the model on service definition, "
+          "parameters, schema views, factory objects, requests and decoded replies."),
+    design="DESIGN.md §5 C07",
+    technique="Coq proof (graph algorithm with fuel sufficiency; rewriting invariance of a schema denotation) + "
+              "rendering-equivalence correspondence",
+    note="The in-place merge order of Schema.dereference is not modelled statement by statement: the denotational "
+         "schema model is compared with suds' own schema objects on every rendering (schema_agrees) and "
+         "model = denotation is evaluated per rendering, not proved in general. WSDL linking/children order and "
+         "set_wrapped are covered by correspondence only.",
+)
+
+CHECKS["C15"] = dict(
+    text=("Machine-checked theorems (Coq) over the pure part of the HTTP transport: RFC 4648 base64 and UTF-8 codecs "
+          "(round trips for ALL byte lists / scalar-value strings), Basic credentials (the server recovers exactly "
+          "user and password for all strings without ':' in the user; the alphabet table is regenerated from /repo by "
+          "calling addcredentials on 64 probes and proved equal to the standard one), header assembly with urllib's "
+          "capitalisation collapse (defaults delivered unless overridden, caller headers delivered), the "
+          "Content-Encoding switch in any spelling (the server decoding by the label it receives gets the envelope), "
+          "reply decoding, HTTPError -> TransportError(code, body) for every status, failures propagate, non-ASCII "
+          "URLs rejected before any I/O, timeout choice, and the cookie jar as a state machine over histories of ANY "
+          "length (set/replace/expire/other path). ~6k cases per quick run against a raw-socket loopback server "
+          "(bodies to 64 KiB incl. non-UTF-8, header maps with case collisions, credentials over printable Unicode "
+          "incl. astral, statuses 200..599, gzip/deflate both ways, 1-5 request sessions with cookies, 11 socket "
+          "fault phases) are compared with model and specification inside Coq. PARTIAL: sockets, urllib, http.client "
+          "and http.cookiejar are runtime behaviour covered by the loopback correspondence only."),
+    design="DESIGN.md §5 C15",
+    technique="Coq proof (codec round trips by induction, pipeline lemmas, invariant over cookie histories) + loopback "
+              "differential correspondence",
+    note="gzip/zlib are oracles (each case carries the harness's own decompression of the wire bytes); bodies are "
+         "interned (equal id = equal bytes); HTTPS, proxies and redirects are not exercised; caller headers owned by "
+         "the standard library (Content-Length, Host, Connection, Transfer-Encoding, Cookie, Expect) are never "
+         "generated.",
+)
+
 PENDING = {}
 
 
